@@ -144,6 +144,7 @@ pub fn run() {
         for mut v in vio {
             if v.key.starts_with("C15:") || v.key.starts_with("panic:") {
                 v.replay["workload"] = json!(name);
+                v.replay["engine"] = json!("hsim");
                 v.replay["driver"] = json!("expiry");
                 found.push(v);
             }
